@@ -106,6 +106,7 @@ def handle (prop : String) (line : String) : String :=
          | [hx, _e0, e, md, v] => opSelect [hx, e, md, v, "-"] res
          | _ => { spec := some "bad-args" })
       | "term" => opTerm args res
+      | "termx" => opTerm args res
       | "svg" => opSvg prop args res
       | "wasm" => opWasm args res
       | "hist" => opHist args res
